@@ -13,7 +13,8 @@ Final        == Complete
 ExplicitWait == \/ wf.status \in {"BUFFERED", "PAUSED"}
                 \/ \E s \in DOMAIN st : st[s].status \in {"SUSPENDED", "PAUSED"}
 
-AllowedFinal(s) == IF P.msref[s] # "" THEN {Ideal.st[s], "SKIPPED", "CANCELED", "NOT_STARTED"}   \* enabled or expired: depends on the schedule
+AllowedFinal(s) == IF P.instk[s] > 0 THEN {"NOT_STARTED", "SUCCEEDED", "CANCELED", "SKIPPED"}   \* an instance added at run time (not in the reference run)
+                   ELSE IF P.msref[s] # "" THEN {Ideal.st[s], "SKIPPED", "CANCELED", "NOT_STARTED"}   \* enabled or expired: depends on the schedule
                    ELSE IF s \in Racy THEN {Ideal.st[s], "CANCELED", "NOT_STARTED"}
                    ELSE IF Ref.st[s] = "ABSENT" THEN {"NOT_STARTED"}     \* a synthetic child the reference run never created
                    ELSE {Ref.st[s]}
@@ -32,6 +33,11 @@ Excess == SumExcess(AllTasks)
 C01_SameOutcome     == Quiescent => OutcomeEq
 C01_ExecBound       == Excess <= cnt.crashes
 C01_NothingStranded == Quiescent => (wf.status \in Final \/ ExplicitWait) /\ dlq = {}
+(* ... including a request that was accepted: every instance the multi-instance stage has counted (WCP-15) exists and its
+   StartStage was queued, once the worker is between two messages *)
+C01_InstanceNotLost == Idle => \A s \in DOMAIN st : \A k \in 1..st[s].mi :
+                          /\ InstRef(s, k) \in DOMAIN st
+                          /\ <<"StartStage", InstRef(s, k), "", 1>> \in pushed
 
 (* C02  redelivery / reordering: same outcome, one start per iteration, no re-execution *)
 C02_SameOutcome == Quiescent => OutcomeEq
@@ -183,6 +189,7 @@ SP(n) ==
   CASE n = "C01_SameOutcome" -> C01_SameOutcome
     [] n = "C01_ExecBound" -> C01_ExecBound
     [] n = "C01_NothingStranded" -> C01_NothingStranded
+    [] n = "C01_InstanceNotLost" -> C01_InstanceNotLost
     [] n = "C02_SameOutcome" -> C02_SameOutcome
     [] n = "C02_StartOnce" -> C02_StartOnce
     [] n = "C02_ExecExact" -> C02_ExecExact
@@ -222,7 +229,7 @@ AP(n) ==
     [] n = "C18_StaysSuspended" -> C18_StaysSuspended_A
     [] n = "C18_TransientNoEffect" -> C18_TransientNoEffect_A
     [] OTHER -> TRUE
-StatePropNames  == {"C01_SameOutcome", "C01_ExecBound", "C01_NothingStranded", "C02_SameOutcome", "C02_StartOnce", "C02_ExecExact", "C05_QuietMeansDone", "C05_SucceededIsHonest", "C05_FailureReported", "C05_NoRunningInFinished", "C09_NoRehandle", "C10_SweepHarmless", "C10_NoExtraExec", "C14_Bounded", "C15_JumpBudget", "C15_OncePerIteration", "C17_CancelCompletes", "C11_Mutex", "C11_ChoiceAtMostOne", "C11_ChoiceLosersCanceled", "C11_MutexWaiterRuns", "C18_NeverLost", "C18_NotSittingOnSignal", "C18_ConsumedOnce", "C18_ResumeOncePerSignal", "C18_SawSignalOnlyIfDelivered"}
+StatePropNames  == {"C01_SameOutcome", "C01_ExecBound", "C01_NothingStranded", "C01_InstanceNotLost", "C02_SameOutcome", "C02_StartOnce", "C02_ExecExact", "C05_QuietMeansDone", "C05_SucceededIsHonest", "C05_FailureReported", "C05_NoRunningInFinished", "C09_NoRehandle", "C10_SweepHarmless", "C10_NoExtraExec", "C14_Bounded", "C15_JumpBudget", "C15_OncePerIteration", "C17_CancelCompletes", "C11_Mutex", "C11_ChoiceAtMostOne", "C11_ChoiceLosersCanceled", "C11_MutexWaiterRuns", "C18_NeverLost", "C18_NotSittingOnSignal", "C18_ConsumedOnce", "C18_ResumeOncePerSignal", "C18_SawSignalOnlyIfDelivered"}
 ActionPropNames == {"C02_NoReexec", "C03_StartsOnlyWhenAllowed", "C03_ExecOnlyStarted", "C03_NoRunBelowHalt", "C06_Legal", "C06_CompletedIsFinal", "C14_ProgressKept", "C14_ProgressExact", "C15_RearmExact", "C17_NoStartAfterCancel", "C11_ClaimsOfLiveKept", "C18_StaysSuspended", "C18_TransientNoEffect"}
 FailedState  == {n \in CheckProps \cap StatePropNames : ~SP(n)}
 =============================================================================
